@@ -20,7 +20,7 @@ def run(c):
     binp = c.build("txn")
     c.tlc_must_pass("TxnStoreMC", c.pick("TxnStoreMC.cfg", "TxnStoreMC_thorough.cfg"), workers=8, timeout=c.pick(300, 1500))
     # 1. random sequential multi-store programs (commit / rollback), strict
-    g = _txncfg.gen(c, "a", MaxStores=3, MaxTxns=5, MaxOps=c.pick(14, 40), Keys=c.pick(12, 20), DupStores=True)
+    g = _txncfg.gen(c, "a", MaxStores=3, MaxTxns=5, MaxOps=c.pick(14, 40), Keys=c.pick(12, 20), DupStores=True, Neighbour=True)
     seq = txnlib.run_driver(c, binp, "seq", _txncfg.cfg(c, "seq", c.pick(60, 600), g))
     rej = txnlib.validate(c, seq, "TxnStoreTrace.cfg")
     for r in rej:
@@ -30,7 +30,7 @@ def run(c):
                  dict(trace=r["trace"], program=r["header"].get("program"), rejected_index=r["index"], events=r["raw"]))
     # 2. fault injection at every backend call of the victim's commit (state claims only)
     gf = _txncfg.gen(c, "f", MaxTxns=3, MaxOps=10, Keys=10, Slots=[2, 4], Rollbacks=False)
-    flt = txnlib.run_driver(c, binp, "fault", _txncfg.cfg(c, "fault", c.pick(3, 16), gf, max_fault=c.pick(12, 0)),
+    flt = txnlib.run_driver(c, binp, "fault", _txncfg.cfg(c, "fault", c.pick(1, 16), gf, max_fault=c.pick(24, 0)),
                             timeout=c.pick(600, 3000))
     rej2 = txnlib.validate(c, flt, "TxnStoreTraceLax.cfg")
     classes = collections.Counter()
